@@ -7,10 +7,26 @@ import tokenizer_proofs  # noqa: E402
 import outtext_proofs  # noqa: E402
 import end_proof  # noqa: E402
 NEED_OPTIONS = True
-PROOFS = output_proofs.select(['add_text_ignored']) + tokenizer_proofs.select(['tok_layout', 'parse_off_newlines', 'parse_newline', 'parse_next_head']) + [outtext_proofs.iteration_proof(), end_proof.end_proof()]
+sys.path.insert(0, os.path.join(os.path.dirname(os.path.abspath(__file__)), '..', '..', 'tools'))
+from prover import Proof  # noqa: E402
+
+
+def marker_proof():
+    return Proof('parse_comment_markers', impl='contracts/C07/marker.impl.cpp', spec='contracts/C07/marker.spec.c', harness='h_parse_comment_markers', plain=True, no_contract=True, canaries=3,
+                 rules={'parse_comment_markers': [('D8', [(r'const auto &ontext(\s*)= ', r'const verif_string &ontext\1= ', 'auto of the option text (used for logging only)', True),
+                                                          (r'const auto &offtext(\s*)= ', r'const verif_string &offtext\1= ', 'auto of the option text (used for logging only)', True)])]},
+                 nondet_static='.*(cpd|g_pos_|g_find_).*', expect=['postcondition: parse_comment'],
+                 functions=['tokenize.cpp:parse_comment (fragment: region marker decision)'],
+                 assumed=['find_enable_/find_disable_processing_comment_marker: position of the marker in the comment text, or -1'],
+                 mutants=[('enable_anywhere_blocks_region', r'if \(position_enable_processing_cmt < position_disable_processing_cmt\)', 'if (position_enable_processing_cmt < 0)', 'postcondition'),
+                          ('region_never_ends', r'cpd\.unc_off = false;', '', 'postcondition'),
+                          ('used_flag_forgotten', r'cpd\.unc_off_used = true;', '', 'postcondition')])
+
+
+PROOFS = output_proofs.select(['add_text_ignored']) + tokenizer_proofs.select(['tok_layout', 'parse_off_newlines', 'parse_newline', 'parse_next_head']) + [outtext_proofs.iteration_proof(), end_proof.end_proof(), marker_proof()]
 EXPLANATION = ('Kernel of C07: add_text(text, is_ignored=true) hands text[0..n) to write_char unchanged and in order and touches neither cpd.column, cpd.spaces nor '
                'cpd.last_char (frame); the blank-line path of parse_ignored (parse_off_newlines) consumes only blanks and terminators and reports their exact count.')
-K = ['K2 add_text(is_ignored): raw emission, frame excludes column logic', 'K5 parse_next (head): while cpd.unc_off is set parse_ignored is the first tokenizer tried, and when it takes the text no other tokenizer is consulted; outside a region it is not consulted',
+K = ['K7 parse_comment (tail): a region begins exactly at a comment whose last marker is the disable marker, ends exactly at a comment holding the enable marker, and opening one is recorded in unc_off_used', 'K2 add_text(is_ignored): raw emission, frame excludes column logic', 'K5 parse_next (head): while cpd.unc_off is set parse_ignored is the first tokenizer tried, and when it takes the text no other tokenizer is consulted; outside a region it is not consulted',
      'K6 uncrustify_end: cpd.unc_off is cleared after every file (a region left open does not disable processing of the next file)',
      'K1b parse_off_newlines: only blanks/terminators consumed, nl_count exact',
      'K3 output_text (one iteration of the chunk loop): a CT_IGNORED / CT_JUNK chunk is written by exactly one add_text(str, is_ignored=true) and nothing else (no output_to_column, no add_char, column/pending blanks/line state untouched)']
